@@ -149,6 +149,7 @@ class Facts:
         self.crates = {}
         self.bodies = {}        # path -> body
         self.by_hash = {}       # def-path hash -> body
+        self.const_bodies = {}  # generic associated constants: path -> MIR body
         self.types = {}
         self.impls = []
         self.traits = {}
@@ -166,6 +167,9 @@ class Facts:
                 b['crate'] = name
                 self.bodies[b['path']] = b
                 self.by_hash[b['hash']] = b
+            for b in d.get('const_bodies', []):
+                b['crate'] = name
+                self.const_bodies[b['path']] = b
             self.types.update({k: v for k, v in d['types'].items() if v is not None})
             for i in d['impls']:
                 i['crate'] = name
